@@ -107,8 +107,11 @@ CaseOk(c) ==
 
 (******************************** oracle **********************************)
 Witness(c) == IF c.op \in BinOps THEN WBin(c.op, NumOf(c.l), NumOf(c.r)) ELSE WUn(c.op, NumOf(c.l), c.p)
-WitnessOk(c) == IF c.op \in BinOps THEN WitnessOkBin(c.op, NumOf(c.l), NumOf(c.r)) ELSE WitnessOkUn(c.op, NumOf(c.l), c.p)
-Functional(c) == IF c.op \in BinOps THEN FunctionalBin(c.op, NumOf(c.l), NumOf(c.r)) ELSE FunctionalUn(c.op, NumOf(c.l), c.p)
+(* w = Witness(c) *)
+WitnessOkW(c, w) == IF c.op \in BinOps THEN WitnessOkBinW(c.op, NumOf(c.l), NumOf(c.r), w) ELSE WitnessOkUnW(c.op, NumOf(c.l), c.p, w)
+FunctionalW(c, w) == IF c.op \in BinOps THEN FunctionalBinW(c.op, NumOf(c.l), NumOf(c.r), w) ELSE FunctionalUnW(c.op, NumOf(c.l), c.p, w)
+WitnessOk(c) == WitnessOkW(c, Witness(c))
+Functional(c) == FunctionalW(c, Witness(c))
 
 AcceptsVal(c, v) ==
   IF c.op \in BinOps THEN AcceptsValBin(c.op, NumOf(c.l), NumOf(c.r), v) ELSE AcceptsValUn(c.op, NumOf(c.l), c.p, v)
